@@ -154,6 +154,14 @@ CORPUS = [
     ("lt-over-max", mk([{"t": "lt", "name": "L", "ch": [
         {"t": "max", "name": "M1", "ch": [C("T", 0, 2, u=2), C("T", 1, 2, u=1)]},
         {"t": "max", "name": "M2", "ch": [C("V", 1, 1, u=2), C("V", 3, 1, u=1)]}]}], P(1))),
+    # the second child's best option starts exactly when the first child's EARLIEST option ends (and before its latest
+    # option ends): time-bound propagation through LessThan must use the earliest end
+    ("lt-over-max-tight", mk([{"t": "lt", "name": "L", "ch": [
+        {"t": "max", "name": "M1", "ch": [C("T", 0, 2, u=2), C("T", 1, 2, u=1)]},
+        {"t": "max", "name": "M2", "ch": [C("V", 1, 1, u=5), C("V", 2, 1, u=2), C("V", 3, 1, u=1)]}]}], P(1))),
+    ("lt-over-max-three", mk([{"t": "lt", "name": "L", "ch": [
+        {"t": "max", "name": "M1", "ch": [C("T", 0, 1, u=1), C("T", 2, 1, u=1), C("T", 4, 1, u=1)]},
+        {"t": "max", "name": "M2", "ch": [C("V", 0, 1, u=4), C("V", 1, 2, u=3), C("V", 3, 1, u=2), C("V", 5, 1, u=1)]}]}], P(1))),
     ("scale", mk([{"t": "scale", "name": "S", "f": 3, "disregard": False, "ch": [C("A", 0, 1, u=2)]},
                   {"t": "scale", "name": "S2", "f": 2, "disregard": True, "ch": [{"t": "min", "name": "N", "ch": [C("B", 0, 1), C("D", 1, 1)]}]}], P(1))),
     ("coarse-aligned", mk([C("A", 0, 3, u=2), C("B", 2, 2, u=3), C("D", 4, 1, u=1)], P(1), gran=2)),
